@@ -431,6 +431,8 @@ def run_workers(ctx, job):
                         fh.write(body)
                 dst = ctx.save_violation(failp, "%s-w%d.replay" % (tag, seed % 1000003))
                 ctx.violations.append(("%s: %s" % (fl["signature"], fl["msg"][:300].replace("\n", " | ")), dst))
+            elif fl["verdict"] == "known":
+                pass   # the shrunk case turned out to be a listed finding (reported by the replay tier)
             else:
                 ctx.inconclusive.append("flaky failure in %s seed %d: %s" % (tag, seed, fl["signature"]))
 
